@@ -75,8 +75,15 @@ def unregister(run_id: str) -> None:
         INVOCATIONS.pop(run_id, None)
 
 
+#: Additive (C29): optional per-run observer called with every event dict before it is logged (may add keys).
+HOOKS: dict[str, Any] = {}
+
+
 def record(run_id: str, **ev: Any) -> None:
     log = INVOCATIONS.get(run_id)
+    hook = HOOKS.get(run_id)
+    if hook is not None:
+        hook(ev)
     if log is not None:
         with _LOCK:
             log.append(ev)
@@ -101,9 +108,11 @@ def _level(name: str) -> Any:
     return Level[name]
 
 
-def _emit_logs(logs: list[dict[str, Any]], sink: Any) -> None:
+def _emit_logs(logs: list[dict[str, Any]], sink: Any, ctx_sink: Any = None) -> None:
+    """Emit logs through *sink*; a log marked ``via == "ctx"`` goes through ``ctx.client_log`` when available."""
     for lg in logs:
-        sink(_level(lg["level"]), lg["msg"], **lg.get("extra", {}))
+        target = ctx_sink if (ctx_sink is not None and lg.get("via") == "ctx") else sink
+        target(_level(lg["level"]), lg["msg"], **lg.get("extra", {}))
 
 
 def _raise(action: dict[str, Any]) -> None:
@@ -167,7 +176,7 @@ def produce(state: Any, out: Any, ctx: Any) -> None:
         out.finish()
         return
     st = steps[i]
-    _emit_logs(st["logs"], out.client_log)
+    _emit_logs(st["logs"], out.client_log, ctx.client_log)
     act = st["action"]
     if act["op"] == "raise":
         _raise(act)
@@ -200,7 +209,7 @@ def exchange(state: Any, inp: Any, out: Any, ctx: Any) -> None:
         in_data=inp.batch.to_pydict(),
     )
     r = resp[i] if i < len(resp) else {"logs": [], "action": {"op": "echo_len"}}
-    _emit_logs(r["logs"], out.client_log)
+    _emit_logs(r["logs"], out.client_log, ctx.client_log)
     act = r["action"]
     if act["op"] == "raise":
         _raise(act)
